@@ -47,10 +47,11 @@ def gen_history(rng, mode, cursor_ops):
     return ops
 
 
-def run_real(mode, nocursor, ops):
+def run_real(mode, nocursor, ops, pseudocursor=False):
     c = vclient.VNCDoToolClient()
     c.factory = vclient.VNCDoToolFactory()
     c.factory.nocursor = nocursor
+    c.factory.pseudocursor = pseudocursor          # --localcursor; with --nocursor the screen must still stay cursor-free
     c.image_mode = mode
     flags = []
     for op in ops:
@@ -110,7 +111,9 @@ def run(tier, seed, model):
         answers = model.call_many([("screen_ops", [nc, MODES[m][0], [to_sx(o) for o in ops]]) for m, nc, ops in cases])
     for i, (mode, nocursor, ops) in enumerate(cases):
         camp.evaluations += 1
-        flags, scr = run_real(mode, nocursor, ops)
+        pc = nocursor and (i % 2 == 0)
+        camp.count("nocursor+localcursor" if pc else ("nocursor" if nocursor else "cursor-drawn"))
+        flags, scr = run_real(mode, nocursor, ops, pc)
         for o in ops:
             camp.count(o[0])
         has_cursor = any(o[0] == "cursor" for o in ops)
